@@ -26,10 +26,11 @@ namespace vs
         int action;  // 0 yield, 1 sleep, 2 hold-until
         unsigned amount;
         int until_tid, until_point;
+        unsigned bound_ms = 200;  // upper bound of a hold (an order constraint never blocks forever)
         std::atomic<unsigned> fired{ 0 };
         Rule() = default;
         Rule(const Rule& o)
-            : point(o.point), tid(o.tid), occurrence(o.occurrence), action(o.action), amount(o.amount), until_tid(o.until_tid), until_point(o.until_point), fired(o.fired.load())
+            : point(o.point), tid(o.tid), occurrence(o.occurrence), action(o.action), amount(o.amount), until_tid(o.until_tid), until_point(o.until_point), bound_ms(o.bound_ms), fired(o.fired.load())
         {
         }
     };
@@ -103,7 +104,7 @@ namespace vs
                 // (an order constraint, bounded by 200 ms so that it can never block forever)
                 unsigned base = g_tr.count[r.until_tid][r.until_point].load(std::memory_order_relaxed);
                 long long t0 = now_ms();
-                while (g_tr.count[r.until_tid][r.until_point].load(std::memory_order_relaxed) == base && now_ms() - t0 < 200)
+                while (g_tr.count[r.until_tid][r.until_point].load(std::memory_order_relaxed) == base && now_ms() - t0 < static_cast<long long>(r.bound_ms))
                     std::this_thread::yield();
             }
         }
